@@ -297,6 +297,10 @@ def check_case(ctx, case, rng, cc=None):
         for data, lab in ((inp, "exact"), (inp + bytes(rng.randrange(256) for _ in range(17)), "tail")):
             r = outcome(T, data)
             ctx.evaluation(key + (data.hex(),))
+            if r[0] == "err" and isinstance(r[1], UnicodeDecodeError) and engine.expected_parse(case, cfg, data)[0] == "decode":
+                # the merged members of a union left a wchar member undecodable (a lone surrogate): not a value (rule 21)
+                ctx.event("skipped:generated-input-has-an-undecodable-wchar-in-a-union")
+                continue
             if r[0] == "err":
                 viol("read", f"reader-raises-on-declared-size-input:{type(r[1]).__name__}", data=data, label=lab,
                      error=lib.exc_sig(r[1]))
